@@ -1,0 +1,109 @@
+// Copyright 2024 The Go Authors. All rights reserved.
+// Use of this source code is governed by a BSD-style
+// license that can be found in the LICENSE file.
+
+//go:build verif
+
+// Contracts (//@ lines) for the chart worker; compiled only with -tags verif.
+
+package main
+
+// C13 ghosts:
+//
+//	$encoded   reports written to the merge object by this request
+//	$lines     lines delivered by the scanner in readMergedReports
+//	$scanOK    the scanner's error was consulted and was nil
+
+//@ ghost encoded int
+//@ ghost lines int
+//@ ghost scanOK bool
+//@ ghost readerErr bool
+//@ ghost dayErr bool
+//@ ghost total int
+//@ ghost base int
+
+// Merging a day: one Encode per object listed for that day; the success answer
+// is produced only if every listed object was read, decoded and encoded.
+//@ contract handleMerge$1
+//@   requires r != nil && r.URL != nil && s != nil && s.Upload != nil && s.Merge != nil
+//@   at call Parse#1: ghost $encoded = 0
+//@   at call Encode#1: after ghost $encoded = ite(result == nil, $encoded+1, $encoded)
+//@   loop 1: invariant $encoded == count && s != nil && s.Upload != nil && s.Merge != nil && it != nil && mergeWriter != nil && encoder != nil
+//@   at call Text#1: assert $encoded == count
+//@   at call Text#1: assert arg2 == 200
+//@   at call Error#1: assert arg1 == 400
+//@   modifies heap
+
+// Reading a merged day: every line the scanner delivers becomes one report,
+// and success is reported only if the scanner ended without an error (a line
+// longer than its buffer is an error, not an early end of file).
+//@ contract readMergedReports
+//@   requires s != nil && s.Merge != nil
+//@   at call NewReader#1: after ghost $readerErr = result1 != nil
+//@   at call NewScanner#1: ghost $lines = 0
+//@   at call NewScanner#1: ghost $scanOK = false
+//@   at call Scan#1: after ghost $lines = ite(result, $lines+1, $lines)
+//@   at call Err#1: after ghost $scanOK = result == nil
+//@   loop 1: invariant len(reports) == $lines && !$scanOK && scanner != nil
+//@   ensures result1 == nil ==> $scanOK && len(result0) == $lines && !$readerErr
+//@   assumes noNilPrograms(result0)
+//@   modifies $lines, $scanOK, $readerErr
+
+// Charting a range: the number of reports charted is the number read; an error
+// from any day (a missing day is "not found") is returned and nothing is written.
+//@ contract handleChart$1
+//@   requires r != nil && r.URL != nil && s != nil && s.Chart != nil && s.Merge != nil && cfg != nil
+//@   at call parseDateRange#1: ghost $dayErr = false
+//@   at call parseDateRange#1: ghost $total = 0
+//@   at call readMergedReports#1: ghost $base = len(reports)
+//@   at call readMergedReports#1: after ghost $dayErr = $dayErr || result1 != nil
+//@   at call readMergedReports#1: after ghost $total = $total + len(result0)
+//@   loop 1: invariant noNilPrograms(reports)
+//@   loop 2: invariant noNilPrograms(dailyReports)
+//@   loop 2: invariant noNilPrograms(reports)
+//@   loop 1: invariant !$dayErr && len(reports) == $total && len(xs) == len(reports) && s != nil && s.Chart != nil && s.Merge != nil && cfg != nil
+//@   loop 2: invariant !$dayErr && $total == $base + len(dailyReports) && len(reports) == $base + rangeindex + 1 && len(xs) == len(reports) && s != nil && s.Chart != nil && s.Merge != nil && cfg != nil
+//@   at call append#1: assert forall j int :: 0 <= j && j < len(r.Programs) ==> r.Programs[j] != nil
+//@   at call group#1: assert len(arg0) == $total && !$dayErr
+//@   at call charts#1: assert len(arg4) == $total && !$dayErr
+//@   at call Text#1: assert arg2 == 200
+//@   modifies heap
+
+//@ contract fileName
+//@   modifies nothing
+
+//@ contract parseDateRange
+//@   requires url != nil
+//@   ensures result2 == nil ==> !end.Before(start)
+//@   modifies nothing
+
+// cutInt: a leading decimal number without superfluous leading zero.
+//@ contract cutInt
+//@   ensures ok ==> len(n) >= 1 && len(n)+len(rest) == len(x)
+//@   ensures ok ==> '0' <= x[0] && x[0] <= '9'
+//@   ensures !ok ==> n == "" && rest == ""
+//@   loop 1: invariant 0 <= i && i <= len(x) && (i > 0 ==> '0' <= x[0] && x[0] <= '9')
+//@   loop 1: decreases len(x)-i
+//@   modifies nothing
+
+//@ contract splitCounterName
+//@   modifies nothing
+
+// group: reports that passed the server's validation have no null program entries.
+//@ predicate noNilPrograms(rs): forall i int, j int :: 0 <= i && i < len(rs) && 0 <= j && j < len(rs[i].Programs) ==> rs[i].Programs[j] != nil
+
+//@ contract group
+//@   requires noNilPrograms(reports)
+//@   loop 1: invariant result != nil
+//@   loop 2: invariant result != nil
+//@   loop 3: invariant result != nil && p != nil
+//@   modifies nothing
+
+// A data value is well formed when no nested map that is present is nil.
+//@ predicate dataOK(d): d != nil && (forall w weekName :: in(w, d) ==> d[w] != nil) && (forall w weekName, p programName :: in(w, d) && in(p, d[w]) ==> d[w][p] != nil) && (forall w weekName, p programName, g graphName :: in(w, d) && in(p, d[w]) && in(g, d[w][p]) ==> d[w][p][g] != nil) && (forall w weekName, p programName, g graphName, b bucketName :: in(w, d) && in(p, d[w]) && in(g, d[w][p]) && in(b, d[w][p][g]) ==> d[w][p][g][b] != nil)
+
+//@ contract data.writeCount
+//@   requires dataOK(d)
+//@   ensures dataOK(d)
+//@   ensures in(week, d) && in(program, d[week]) && in(chart, d[week][program]) && in(bucket, d[week][program][chart]) && in(id, d[week][program][chart][bucket]) && d[week][program][chart][bucket][id] == value
+//@   modifies maps(weekName, map[programName]map[graphName]map[bucketName]map[reportID]int64), maps(programName, map[graphName]map[bucketName]map[reportID]int64), maps(graphName, map[bucketName]map[reportID]int64), maps(bucketName, map[reportID]int64), maps(reportID, int64)
